@@ -102,6 +102,26 @@ def _donor(origin):
 	return fn
 
 
+def _matmul_one(coefs):
+	def fn(rng, v, extra):
+		one = Table([Vector(list(v._underlying), name="x")]) if len(coefs) == 1 else Table([Vector(list(v._underlying), name="x"), Vector(list(v._underlying), name="y")])
+		extra["swap_source"] = one      # the table is the operand the program keeps
+		return one @ Vector(list(coefs))
+	return fn
+
+
+for _c in ([1], [1.0], [True], [2], [1, 0], [0, 1], [1, 1]):
+	DERIVS[f"table @ {_c!r}"] = ("vector", _matmul_one(_c))
+
+
+def _donor_same_name(rng, v, extra):
+	donor = Vector(list(v._underlying), name="a")      # carries the very name of the column it is assigned to
+	extra["swap_source"] = donor
+	extra["t"].a = donor
+	return extra["t"]
+
+
+DERIVS["t.a = vector named a (donor)"] = ("vector", _donor_same_name)
 for _o in ("arith", "arith-scalar", "rarith", "compare", "neg", "slice", "sort", "fillna", "agg-column", "lshift", "copy"):
 	DERIVS[f"t.x = kept {_o} result (donor)"] = ("vector", _donor(_o))
 
@@ -452,8 +472,8 @@ def run_pair(chk, spec):
 		src = extra["swap_source"]
 	if "(donor)" not in dname:
 		for k, obj in (("source", src), ("w", extra["w"]), ("t", extra["t"]), ("t2", extra["t2"])):
-			if k == "source" and extra.get("inplace"):
-				continue      # an augmented assignment may legitimately update its left operand
+			if k == "source" and (extra.get("inplace") or "swap_source" in extra):
+				continue      # an augmented assignment may legitimately update its left operand; a swapped-in source was built inside the derivation
 			now = M.snap_any(obj)
 			if now != pre[k]:
 				chk.judged("pair", ("derive-purity", dname, k))
